@@ -774,6 +774,12 @@ def implementAndCompile (k : MKey) (feats : FeatArg) : M Unit := do
     depSetsM (some k)
     compileAll
 
+/-- `LY_CTX_SET_PRIV_PARSED` is being set: every implemented module is to be recompiled
+    (`tick 4`: the four implemented internal modules are recompiled, too) -/
+def privMark (s : Ctx) : Ctx :=
+  tick 4 { s with privParsed := true,
+                  mods := s.mods.map fun m => if m.implemented then { m with toCompile := true } else m }
+
 /-- the part of an operation before the error handling -/
 def forward : Op → M Unit
   | .parse src feats => do
@@ -791,8 +797,7 @@ def forward : Op → M Unit
   | .setOpt ex pp => do
     let s ← getS
     (if pp && !s.privParsed then do
-      modS fun s => tick 4 { s with privParsed := true,           -- (tick 4: the four implemented internal modules)
-                                    mods := s.mods.map fun m => if m.implemented then { m with toCompile := true } else m }
+      modS privMark
       depSetsM none
       compileAll
      else pure ())
